@@ -87,6 +87,12 @@ CLAIMED["C08"] = dict(
     technique="contract-based verification on the real LALR table: exhaustive simulation of the action/goto tables from every expression-start state (complete for an LR parser)",
     design="DESIGN.md section 4 (C08)")
 
+CLAIMED["C16"] = dict(
+    text="Proof of component contracts: Linker.AddModule/Link on every enumerated import graph (single, one import, chain of four, diamond, two roots sharing an import, module imported along two paths) in every order of adding the roots with a counting loader: union of all tables, every imported module loaded exactly once, duplicates of functions and globals rejected in either order and through imports, frame of AddModule, isolation of linkers; producer/consumer agreement of the module metadata (LowerToIR.v_Module writes what ComputeTypes.v_Module reads; imports wherever they stand; calls lowered to the exporting module's registered name) checked by compiling importing modules against an in-memory loader and running the linked program; the import grammar actions. A bounded end-to-end family goes through pickle files and the real file loader.",
+    note="Trusted: pickle and FilesystemModuleLoader (only exercised by the bounded family), CPython set iteration order for the run. Import graphs of at most four modules.",
+    technique="contract-based verification of the linker and of the metadata producer/consumer pair (exhaustive finite import graphs, counting loader)",
+    design="DESIGN.md section 4 (C16)")
+
 NOT_YET = "not built yet in this round (design in DESIGN.md section 4); will be claimed when its obligations run"
 NA = {
     "C17": "pickle round trip across processes is the whole property; no contract within reach of the technique can decide it (DESIGN.md section 5)",
